@@ -13,6 +13,11 @@ mod val;
 
 use serde_json::json;
 
+thread_local! {
+    /// lower bound on the length of recorded inputs (inputs longer than Stream's 512-token batch, C10)
+    static MINLEN: std::cell::Cell<usize> = std::cell::Cell::new(0);
+}
+
 fn arg(args: &[String], name: &str) -> Option<String> {
     args.iter().position(|a| a == name).and_then(|i| args.get(i + 1).cloned())
 }
@@ -70,6 +75,8 @@ fn real_main(cmd: String, args: Vec<String>) -> i32 {
             let kinds: Vec<String> = arg(&args, "--kinds").unwrap_or("str".into()).split(',').map(|s| s.to_string()).collect();
             let etys: Vec<String> = arg(&args, "--etys").unwrap_or("rich".into()).split(',').map(|s| s.to_string()).collect();
             let out = arg(&args, "--out").expect("--out");
+            let minlen: usize = arg(&args, "--minlen").and_then(|x| x.parse().ok()).unwrap_or(0);
+            MINLEN.with(|m| m.set(minlen));
             match record(&prop, &fam, n, seed, size, len, &kinds, &etys, &out) {
                 Ok(k) => {
                     println!("{}", json!({"recorded": k}));
@@ -244,7 +251,7 @@ fn record(prop: &str, fam: &str, n: usize, seed: u64, size: usize, len: usize, k
     while k < n {
         let budget = 2 + r.below(size);
         let g = gen::gen_wf(&mut r, &f, budget);
-        let inp = gen::gen_input(&mut r, &f, len, fam == "nst");
+        let inp = gen::gen_input_min(&mut r, &f, MINLEN.with(|m| m.get()), len, fam == "nst");
         let kind = r.pick(kinds).clone();
         let ety = r.pick(etys).clone();
         let mode = if r.chance(1, 2) { "E" } else { "C" };
